@@ -23,7 +23,8 @@ theorem getLast?_hint (l : List Rng) (lo : Nat) (hc : CanonFrom lo l) :
 
 theorem borrowedSrc_hintOk (d : Nat) (l : List Rng) (hc : Canon l) : (borrowedSrc d l).HintOk := by
   refine ⟨?_, Nat.le_refl _, ?_⟩
-  · exact getLast?_hint l 0 hc
+  · intro r hr
+    exact ⟨canon_nonempty hc r (List.mem_of_getLast? hr), getLast?_hint l 0 hc r hr⟩
   · intro n hn; simp [borrowedSrc] at hn ⊢; omega
 
 /-- Eager evaluation of any program over valid leaves yields a valid MOC (and a legal depth). -/
